@@ -1,3 +1,10 @@
 SPECIFICATION Spec
-INVARIANTS AcceptIffAllChecks StoredOnlyIfAccepted AcceptedIsStored
+CONSTANTS
+  MaxEpoch = 3
+  NSenders = 2
+  RSigs = {"ok", "bad"}
+  RSchemes = {"sha512", "n3"}
+  RObjs = {"valid", "badheader"}
+  RCnrs = {"known", "unknown"}
+INVARIANTS OkOnlyIfAccepted StoredOnlyIfAccepted OkMeansStored AcceptedWhenAllChecksPass AllRequestsAgree
 CHECK_DEADLOCK FALSE
